@@ -85,6 +85,13 @@ fn draw_shape(ctx: &Ctx, big: bool) -> Vec<usize> {
         };
         v.push(len);
     }
+    // one message in eight ends in one or two empty frames (the decoder has to complete a frame
+    // of zero bytes with nothing behind it in the buffer)
+    if ctx.plan(8) == 0 {
+        for _ in 0..1 + ctx.plan(2) {
+            v.push(crate::world::TAIL_EMPTY);
+        }
+    }
     v
 }
 
